@@ -43,7 +43,7 @@ def gen_text(rnd, allow_undef, chunks=1):
         elif k < 0.52:
             lines.append("ret")
         elif k < 0.56:
-            lines.append(rnd.choice(["jmp *%rax", "call *%rax"]))
+            lines.append(rnd.choice(["jmp *%rax", "call *%rax", "jmp *%rax", "call *%rax", f"call *{t}(%rip)", f"jmp *{t}(%rip)", f"call *{t}@GOTPCREL(%rip)"]))
         elif k < 0.62:
             lines.append(rnd.choice([f"lea {t}(%rip), %rax", f"mov {t}@GOTPCREL(%rip), %rax", f"mov {t}+4(%rip), %eax",
                                      f"movl $1, {t}(%rip)", f"movw $3, {t}(%rip)", f"cmpb $7, {t}+4(%rip)"]))
@@ -221,9 +221,10 @@ _ATTR = {}
 
 
 def ATTR(a):
-    """a small stable number per attribute (PLT must be 1, as in the model)"""
+    """a small stable number per attribute: the ones the model names (Asm/Model.v: PLT 1, GOT 2, LO12 3, HI 4, LO 5, PCREL 6) are fixed"""
     if not _ATTR:
-        _ATTR[gtirb.SymbolicExpression.Attribute.PLT] = 1
+        A = gtirb.SymbolicExpression.Attribute
+        _ATTR.update({A.PLT: 1, A.GOT: 2, A.LO12: 3, A.HI: 4, A.LO: 5, A.PCREL: 6})
     return _ATTR.setdefault(a, len(_ATTR) + 1)
 
 
